@@ -76,6 +76,14 @@ Related(ea, eb) ==
                               \cup (IF ea.ret = eb.ret THEN {} ELSE {"OUT"})
       [] tr.rel = "resume_min" -> (IF MinNodes(ea.post, Id) = MinNodes(eb.post, Id) THEN {} ELSE {"ISO"})
                               \cup (IF ea.ret = eb.ret THEN {} ELSE {"OUT"})
+      [] tr.rel = "resume_seeds" ->
+            \* the attractor query: the same attractors are found (as sets of seeds' ... the seeds are full states; a
+            \* relaxed configuration may choose other representatives, so only their number per node is compared here;
+            \* exactness of each run's seeds is judged by SDTrace)
+            (IF \A i \in DOMAIN ea.post.nodes : i \in DOMAIN eb.post.nodes /\
+                    (ea.post.nodes[i].seeds.k = 1 /\ eb.post.nodes[i].seeds.k = 1) =>
+                        Len(ea.post.nodes[i].seeds.v) = Len(eb.post.nodes[i].seeds.v) THEN {} ELSE {"ISO"})
+            \cup (IF ea.ret = eb.ret THEN {} ELSE {"OUT"})
       [] tr.rel = "below"  ->
             \* a: free-input network; b: inputs fixed to the valuation tr.val (a space); the sub-diagram of a
             \* below the node of that valuation equals the diagram of b (spaces of b all lie inside val)
